@@ -2200,8 +2200,7 @@ func (w *bWorld) externalChecks(d *bDID, st *refmodel.State) {
 		for _, e := range l {
 			em, _ := e.(map[string]interface{})
 			id, _ := em["id"].(string)
-			ep, _ := em["serviceEndpoint"].(string)
-			gotSvcs = append(gotSvcs, strings.TrimPrefix(id, did)+"="+strings.TrimPrefix(ep, "https://sim.example/"))
+			gotSvcs = append(gotSvcs, strings.TrimPrefix(id, did)+"="+workload.SvcMark(em))
 		}
 	}
 
@@ -2485,8 +2484,7 @@ func (w *bWorld) versionCutChecks(d *bDID) {
 			for _, e := range l {
 				em, _ := e.(map[string]interface{})
 				id, _ := em["id"].(string)
-				ep, _ := em["serviceEndpoint"].(string)
-				gotSvcs = append(gotSvcs, rel(id)+"="+strings.TrimPrefix(ep, "https://sim.example/"))
+				gotSvcs = append(gotSvcs, rel(id)+"="+workload.SvcMark(em))
 			}
 		}
 
